@@ -181,3 +181,138 @@ def auxiliary_functions_of_faulted_requests(sx, proto):
     if not status or status[0].startswith('200'):
         return False            # (also: a non-conformant request must be refused under soft validation)
     return RAN == []
+
+
+# ---------------------------------------------------------------- hostile documents per protocol (beyond the generic kinds)
+from spyne import ComplexModel
+from spyne.model.primitive import Duration, Decimal as _Dec
+from spyne.model.binary import ByteArray
+from spyne.model.complex import Array
+from spyne.protocol.yaml import YamlDocument
+
+HRAN = []
+
+
+class Item(ComplexModel):
+    __namespace__ = 'tns'
+    name = Unicode
+    dur = Duration
+    blob = ByteArray
+    amount = _Dec
+    tags = Array(Unicode)
+    many = Integer(max_occurs='unbounded')
+
+
+class HostileSvc(Service):
+    @rpc(Item, _returns=Integer)
+    def take(ctx, item):
+        HRAN.append('take')
+        return 1
+
+
+def _soap(inner):
+    return ('<s:Envelope xmlns:s="%s">%s</s:Envelope>' % (P.SOAP_ENV, inner)).encode()
+
+
+def _soapb(inner):
+    return _soap('<s:Body>%s</s:Body>' % inner)
+
+
+HOSTILE = {     # (input protocol, validator) -> {name: (body, wsgi env)}
+    'xml': {
+        'entity reference as child of an object': (b'<!DOCTYPE take [<!ENTITY x "y">]><take xmlns="tns"><item>&x;</item></take>', {}),
+        'comment and PI inside an object': (b'<take xmlns="tns"><item><!-- c --><?pi x?><name>a</name></item></take>', {}),
+        'child attribute named like a sibling member': (b'<take xmlns="tns"><item><tags dur="x"><string>a</string></tags></item></take>', {}),
+        'attribute named like a member on the object': (b'<take xmlns="tns"><item dur="x" blob="!"><name>a</name></item></take>', {}),
+        'unknown charset': (b'<take xmlns="tns"><item><name>a</name></item></take>', {'CONTENT_TYPE': 'text/xml; charset=bogus-9'}),
+        'bad base64': (b'<take xmlns="tns"><item><blob>abc</blob></item></take>', {}),
+        'duration overflow': (b'<take xmlns="tns"><item><dur>P99999999999D</dur></item></take>', {}),
+        'text and tail around members': (b'<take xmlns="tns">x<item>y<name>a</name>z</item>w</take>', {}),
+        'nested same element': (b'<take xmlns="tns"><item><item><name>a</name></item></item></take>', {}),
+    },
+    'soap11': {
+        'empty Body': (_soap('<s:Body/>'), {}),
+        'header only': (_soap('<s:Header/>'), {}),
+        'two Bodies': (_soap('<s:Body/><s:Body><take xmlns="tns"/></s:Body>'), {}),
+        'text only Body': (_soap('<s:Body>hello</s:Body>'), {}),
+        'dangling href': (_soapb('<take xmlns="tns"><item href="#nope"/></take>'), {}),
+        'self-referencing href': (_soapb('<take xmlns="tns" id="a"><item href="#a"/></take>'), {}),
+        'Fault as request': (_soapb('<s:Fault xmlns:s="%s"><faultcode>x</faultcode></s:Fault>' % P.SOAP_ENV), {}),
+        'unknown charset': (_soapb('<take xmlns="tns"><item><name>a</name></item></take>'), {'CONTENT_TYPE': 'text/xml; charset=bogus-9'}),
+        'entity reference as child of an object': (b'<!DOCTYPE x [<!ENTITY x "y">]>' + _soapb('<take xmlns="tns"><item>&x;</item></take>'), {}),
+    },
+    'json': {
+        'NaN for a decimal': (b'{"take": {"item": {"amount": NaN}}}', {}),
+        'Infinity for a decimal': (b'{"take": {"item": {"amount": -Infinity}}}', {}),
+        'scalar for a repeated member': (b'{"take": {"item": {"many": 5}}}', {}),
+        'null for a repeated member': (b'{"take": {"item": {"many": null}}}', {}),
+        'string for an array': (b'{"take": {"item": {"tags": "abc"}}}', {}),
+        'number for binary': (b'{"take": {"item": {"blob": 5}}}', {}),
+        'list for binary': (b'{"take": {"item": {"blob": [1, 2]}}}', {}),
+        'bad base64': (b'{"take": {"item": {"blob": "abc"}}}', {}),
+        'duration overflow': (b'{"take": {"item": {"dur": "P99999999999D"}}}', {}),
+        'unknown charset': (b'{"take": {"item": {"name": "a"}}}', {'CONTENT_TYPE': 'application/json; charset=bogus-9'}),
+        'deep nesting': (b'[' * 5000 + b']' * 5000, {}),
+        'huge exponent': (b'{"take": {"item": {"many": [1e999999]}}}', {}),
+        'duplicate keys': (b'{"take": {"item": {"name": "a", "name": "b"}}, "take": 5}', {}),
+    },
+    'yaml': {
+        'scanner error': (b'take: {item: [}', {}),
+        'control character': (b'take: \x00', {}),
+        'unknown tag': (b'take: !!python/object:os.system x', {}),
+        'alias bomb': (b'a: &a [x, x]\nb: &b [*a, *a]\ntake: {item: {tags: *b}}', {}),
+        'tab indentation': (b'take:\n\titem: 1', {}),
+        'binary for text': (b'take: {item: {name: !!binary "/w=="}}', {}),
+        'unknown charset': (b'take: {item: {name: a}}', {'CONTENT_TYPE': 'text/yaml; charset=bogus-9'}),
+        'timestamp for text': (b'take: {item: {name: 2001-01-01}}', {}),
+        'set for an array': (b'take: {item: {tags: !!set {a, b}}}', {}),
+    },
+}
+HOSTILE_APPS = {}
+
+
+def _hostile_app(proto, validator):
+    key = (proto, validator)
+    if key not in HOSTILE_APPS:
+        Pc = {'json': JsonDocument, 'xml': XmlDocument, 'soap11': Soap11, 'yaml': YamlDocument}[proto]
+        HOSTILE_APPS[key] = Application([HostileSvc], 'tns', in_protocol=Pc(validator=validator), out_protocol=Pc())
+    return HOSTILE_APPS[key]
+
+
+@harness('C10', params=[(p, v) for p in sorted(HOSTILE) for v in ('soft', None) + (('lxml',) if p in ('xml', 'soap11') else ())],
+         label=lambda p: '%s validator=%s' % p,
+         functions=['spyne.server.wsgi.WsgiApplication.__call__', 'spyne.server._base.ServerBase.generate_contexts',
+                    'spyne.protocol.xml.XmlDocument.complex_from_element', 'spyne.protocol.soap.soap11._from_soap',
+                    'spyne.protocol.soap.soap11.Soap11.decompose_incoming_envelope',
+                    'spyne.protocol.yaml.YamlDocument.create_in_document',
+                    'spyne.protocol.dictdoc.hier.HierDictDocument._doc_to_object'],
+         bounds={'requests': 'the concrete protocol-specific hostile documents listed in HOSTILE (9 XML, 9 SOAP, 13 JSON, 9 YAML), '
+                             'each through WsgiApplication, validators soft / None (/ lxml for XML and SOAP), chunked or not'})
+def hostile_documents(sx, p):
+    """a structurally hostile document is answered (normally or with a Client fault) - nothing escapes the WSGI callable,
+    no Server fault, and the user function does not run for a refused request"""
+    import io
+    proto, validator = p
+    name = sx.choose('document', sorted(HOSTILE[proto]))
+    chunked = sx.choose('chunked', [True, False])
+    body, env = HOSTILE[proto][name]
+    app = _hostile_app(proto, validator)
+    del HRAN[:]
+    w = WsgiApplication(app, chunked=chunked)
+    environ = {'REQUEST_METHOD': 'POST', 'PATH_INFO': '/', 'QUERY_STRING': '', 'SERVER_NAME': 'localhost',
+               'SERVER_PORT': '80', 'wsgi.url_scheme': 'http', 'wsgi.input': io.BytesIO(body),
+               'CONTENT_LENGTH': str(len(body)), 'CONTENT_TYPE': 'text/xml' if proto in ('xml', 'soap11') else 'text/plain'}
+    environ.update(env)
+    status = []
+    out = b''.join(w(environ, lambda s, h, e=None: status.append(s)))
+    sx.observe('status', status)
+    if not status:
+        return False
+    if status[0].startswith('200'):
+        return True                 # decoded (leniently) and answered
+    if HRAN:
+        return False                # refused, yet the function ran
+    if proto == 'soap11':
+        return b'Client' in out and b'Server' not in out.replace(b'Server.', b'')[:0] + b'' or b'faultcode>soap11env:Client' in out \
+            or b':Client' in out
+    return status[0].startswith('4')
